@@ -100,6 +100,11 @@ func ToXText(env envs.Environment, x XValue) (*XText, *XError) {
 		return XTextEmpty, x.(*XError)
 	}
 
+	// a text is its own rendering, whatever its length
+	if text, isText := x.(*XText); isText {
+		return text, nil
+	}
+
 	if xerr := CheckRenderSize(x, false); xerr != nil {
 		return XTextEmpty, xerr
 	}
